@@ -227,7 +227,7 @@ var allProtos = []string{proto.CMPKeygen, proto.CMPRefresh, proto.CMPSign, proto
 func genSpec(t *rapid.T, protos []string) Spec {
 	s := Spec{Proto: rapid.SampledFrom(protos).Draw(t, "proto")}
 	s.SID = rapid.SampledFrom([]string{"nil", "empty", "s", "session", "session2"}).Draw(t, "sid")
-	s.Family = rapid.SampledFrom([]string{"letters", "prefix", "concat", "near1", "nonascii", "long"}).Draw(t, "family")
+	s.Family = rapid.SampledFrom([]string{"letters", "prefix", "concat", "near1", "nonascii", "long", "padding"}).Draw(t, "family")
 	s.IDPick = rapid.IntRange(0, 7).Draw(t, "idpick")
 	s.N = rapid.IntRange(2, 4).Draw(t, "n")
 	s.T = rapid.IntRange(0, s.N-1).Draw(t, "t")
